@@ -97,7 +97,7 @@ def r2_header(ctx):
 
 def r345_body(ctx):
     qn = LS
-    K.roles_rule(ctx, "R5", [qn], with_return=False)
+    K.roles_rule(ctx, "R5", [qn], with_return=False, require={qn: [{"linspace-args"}, {"dict-entry"}]})
     n = 0
     for p in ctx.paths(qn):
         if p.exit != "return":
